@@ -26,7 +26,16 @@ impl EventSource for RawIoBlock<'_> {
     fn subscribe(&mut self, co: CoroutineImpl) {
         #[cfg(feature = "io_cancel")]
         let handle = co_get_handle(&co);
-        let io_data = self.io_data;
+        // once the coroutine is stored below it can be resumed by the selector thread
+        // and finish: `self` and the io object it points into may be gone by then
+        let io_data = (**self.io_data).clone();
+        // register the cancel io data before the coroutine is published: afterwards it
+        // can be resumed and block somewhere else, a registration done then would be
+        // stale and make a cancel wake whoever waits on this io object at that time
+        #[cfg(feature = "io_cancel")]
+        let cancel = handle.get_cancel();
+        #[cfg(feature = "io_cancel")]
+        cancel.set_io(io_data.clone());
         io_data.co.store(co);
         // there is event, re-run the coroutine
         if io_data.io_flag.load(Ordering::Acquire) != 0 {
@@ -34,15 +43,11 @@ impl EventSource for RawIoBlock<'_> {
             return io_data.fast_schedule();
         }
 
+        // re-check the cancel status. a canceller that came before the coroutine was
+        // stored has consumed the registration and found nothing: wake it up here
         #[cfg(feature = "io_cancel")]
-        {
-            let cancel = handle.get_cancel();
-            // register the cancel io data
-            cancel.set_io((*io_data).clone());
-            // re-check the cancel status
-            if cancel.is_canceled() {
-                unsafe { cancel.cancel() };
-            }
+        if cancel.is_canceled() {
+            io_data.schedule();
         }
     }
 
